@@ -746,6 +746,11 @@ def run(ctx):
         c10.inputmut_rule(ctx, "C05.inputmut", pents, "parsing the same tree again gives other columns", objects_only=True)
 
     ctx.section(_sec_inputmut)
+    # "defaults" are part of what must round-trip: a default of 0 / False / '' must reach the Column like any other
+    # (C02's rule on truthiness tests of a default; it covers the SQLAlchemy emit helpers)
+    from . import c02 as _c02_falsy
+
+    ctx.section(_c02_falsy._falsy, ctx, index)
 
     from . import c10 as _c10_state
 
